@@ -21,9 +21,12 @@ from condgen import OPC, FLAG, op_atom
 
 UNIT = "locks"
 GEN = ["opcodes", "ladders"]
-RULE = ("bundles of 1-3 spends with 0-6 lock/birth conditions each over the 10 kinds; arguments from boundary pools "
-        "(0,1,W-1,W,W+1,2^32-1,2^32,2^64-1,2^64,negative,redundant zero, missing); 4-9 chain states per bundle placed on "
-        "every threshold of the bundle's own assertions and +-1, type maxima, missing coin records; both nowrap modes. "
+RULE = ("bundles of 1-3 spends with 0-6 lock/birth conditions each over the 10 kinds, from 8 generators: consistent (state "
+        "first, tight bounds), conflict (boundary pool 0,1,W-1,W,W+1,2^32+-1,2^64+-1,negative,2^72,redundant zero,pair,missing), "
+        "pairs (before/after and birth pairs, equal or adjacent values, both orders), small, overflow (sums crossing 2^32/2^64), "
+        "ephemeral (parent/child, near misses, relative kind x argument class cycled), classes (kind x argument class cycled, "
+        "verdict depending on that one assertion); 4-9 chain states per bundle placed on every threshold of the bundle's own "
+        "assertions and +-1, type maxima, wrap boundaries, missing coin records; both nowrap modes; corpus/C03 first. "
         "non-trivial/distinct = distinct (generator, set of (kind, argument class), nowrap, verdict class) tuples")
 ASSUMPTIONS = [
     "Cond/Model.v mirrors conditions.rs (validated by the cond stream and again here: parse verdict class and folded lock summary of every case)",
@@ -278,7 +281,7 @@ def gen_pairs(rng):
     """a 'not before' / 'before' pair of one family on one spend, equal or adjacent values, both orders
     (the incremental Impossible* checks of the fold), optionally a third assertion in between"""
     s = Spend(rng)
-    fam = rng.choice([("HR", "BHR"), ("SR", "BSR"), ("HA", "BHA"), ("SA", "BSA")])
+    fam = rng.choice([("HR", "BHR"), ("SR", "BSR"), ("HA", "BHA"), ("SA", "BSA"), ("BH", "BH"), ("BS", "BS")])
     m = kmax(fam[0])
     a = rng.choice([0, 1, 5, 10, 100, m - 1, m, m // 2])
     b = rng.choice([a, a, a + 1, a + 1, max(a - 1, 0), a + 2])
@@ -347,6 +350,13 @@ def gen_ephemeral(rng):
     else:
         c = Spend(rng, parent=p.id, ph=cph, amount=camt)
     n = rng.choice([0, 1, 1, 1, 2])
+    if rng.chance(1, 2):
+        i = CYCLE["eph"]
+        CYCLE["eph"] += 1
+        rk = sorted(RELATIVE)
+        k = rk[i % len(rk)]
+        c.asserts.append((k, class_value(k, ["zero", "neg1", "W", "max", "negbig", "big"][(i // len(rk)) % 6])))
+        n = 0
     for _ in range(n):
         k = rng.choice(KNAMES if rng.chance(1, 3) else sorted(RELATIVE))
         cls = rng.below(4)
@@ -366,8 +376,38 @@ def gen_ephemeral(rng):
     return "ephemeral", spends, boundary_states(rng, spends, 4)
 
 
+CYCLE = {"classes": 0, "eph": 0}
+CLASS_VALUES = ["neg1", "W", "max", "negbig", "zero", "W+1", "big"]
+
+
+def class_value(k, cls):
+    m = kmax(k)
+    return {"neg1": -1, "negbig": -(m + 1), "zero": 0, "max": m, "W": m + 1, "W+1": m + 2, "big": 1 << 72}[cls]
+
+
+def gen_classes(rng):
+    """one spend whose verdict depends on ONE assertion with an argument of a given class (cycling through
+    kind x class), next to at most one in-range assertion that holds in the base state"""
+    i = CYCLE["classes"]
+    CYCLE["classes"] += 1
+    k = KNAMES[i % len(KNAMES)]
+    cls = CLASS_VALUES[(i // len(KNAMES)) % len(CLASS_VALUES)]
+    s = Spend(rng)
+    s.asserts.append((k, class_value(k, cls)))
+    h = rng.choice([0, 1, 1000, M32 - 1, M32])
+    t = rng.choice([0, 1, 10 ** 9, M64 - 1, M64])
+    cbi = rng.choice([0, h, rng.below(h + 1)])
+    ts = rng.choice([0, t, rng.below(t + 1)])
+    if rng.chance(1, 2):
+        k2 = rng.choice(["HR", "SR", "HA", "SA", "BH", "BS"])
+        v2 = {"HR": 0, "SR": 0, "HA": h, "SA": t, "BH": cbi, "BS": ts}[k2]
+        s.asserts.insert(rng.below(2), (k2, v2))
+    base = {"h": h, "t": t, "recs": {s.id: [cbi, ts]}}
+    return "classes", [s], perturbed_states(rng, base, [s])[:5]
+
+
 GENS = [gen_consistent, gen_consistent, gen_conflict, gen_conflict, gen_small, gen_small, gen_overflow, gen_ephemeral,
-        gen_ephemeral, gen_pairs, gen_pairs]
+        gen_ephemeral, gen_pairs, gen_pairs, gen_classes, gen_classes]
 
 
 # ---------------------------------------------------------------- case lines
@@ -463,8 +503,22 @@ def run(ctx):
             model = C.run_lines(C.VRUN(UNIT), [line]) if ctx["have_model"] else ["MODEL-UNAVAILABLE"]
             classify_disagreements(rep, [line], impl, model)
         return
-    nb = 420 if tier == "quick" else 8000
+    nb = 480 if tier == "quick" else 8000
+    CYCLE["classes"] = CYCLE["eph"] = 0
     checks, oracles, keys_c, keys_o = [], [], [], []
+    # corpus first: hand-made boundary cases and minimised past disagreements
+    cdir = C.VERIF + "/corpus/C03"
+    if os.path.isdir(cdir):
+        for fn in sorted(os.listdir(cdir)):
+            for l in open(os.path.join(cdir, fn)):
+                l = l.strip()
+                if l.startswith("locks.check"):
+                    checks.append(l)
+                    keys_c.append(("corpus", fn))
+                elif l.startswith("locks.oracle"):
+                    oracles.append(l)
+                    keys_o.append(("corpus", fn))
+    ncorpus = len(checks)
     gens = {}
     g = rng.fork("bundles")
     for _ in range(nb):
@@ -497,7 +551,8 @@ def run(ctx):
     st["verdicts"] = dict(Counter(proj(i) for i in impl))
     st["generators"] = gens
     st["bundles"] = nb
-    st["nowrap_differs_from_wrap"] = sum(1 for a, b in zip(impl[0::2], impl[1::2]) if proj(a) != proj(b))
+    st["corpus_cases"] = ncorpus
+    st["nowrap_differs_from_wrap"] = sum(1 for a, b in zip(impl[ncorpus::2], impl[ncorpus + 1::2]) if proj(a) != proj(b))
 
     # --- error codes (information only)
     sub = [c.replace("locks.check", "locks.code", 1) for c in checks[::3]]
